@@ -62,7 +62,7 @@ Value& MemberSETExpression::value(Context& ctx) const
           if (a0.isNull())
             rv->at(_index).swap(Value(Value::type_integer));
           else
-            rv->at(_index).swap(Value(Integer(*a0.numeric())));
+            rv->at(_index).swap(Value(Value::toInteger(*a0.numeric())));
           return val;
         }
         else if (a0.type() == Type::NO_TYPE)
